@@ -214,6 +214,21 @@ def run_image_pairs(ctx):
                 ops.append(["seek", rng.randrange(n)])
         cases.append({"frames": n, "repeat": rng.choice([1, 2, 3, -1]), "style": rng.choice(["block", "kitty", "iterm2"]),
                       "cached": rng.choice([True, n - 1 if n > 1 else 1, n, n + 1]), "ops": ops})
+    # size histories that RETURN to an earlier size (A, B, A, ...) once per pass, so that a cache
+    # entry rewritten for another size is consulted again under the first one
+    sizes = [[4, 2], [6, 3], [2, 1], [8, 4]]
+    for i in range(9 if ctx.quick else 60):
+        n = rng.choice([2, 2, 3])
+        a, b = rng.sample(sizes, 2)
+        pattern = rng.choice([[a, b, a, b], [a, b, a, a], [a, b, b, a], [a, a, b, a]])
+        ops = []
+        for sz in pattern:
+            ops.append(["size", sz])
+            ops += [["next"]] * n
+            if rng.random() < 0.3:
+                ops += [["seek", rng.randrange(n)], ["next"]]
+        cases.append({"frames": n, "repeat": rng.choice([-1, 4, 5]), "style": rng.choice(["block", "kitty", "iterm2"]),
+                      "cached": rng.choice([True, n, n + 1]), "ops": ops})
     try:
         res = core.run_impl_parallel("impl_c09_img.py", cases)
     except Exception as e:  # noqa: BLE001
